@@ -287,7 +287,7 @@ class _VersionIndependentUnmarshaller:
     def t_long(self, save_ref, bytes_for_s=False):
         n = unpack("<i", self.fp.read(4))[0]
         if n == 0:
-            return self.r_ref(long(0), save_ref)
+            return self.r_ref(long(0) if self.python2_bytecode else 0, save_ref)
         size = abs(n)
         d = long(0)
         for j in range(0, size):
